@@ -209,6 +209,8 @@ def run_rc_program(pid, tier, cfg):
     tcfg = dict(cfg[tier])
     if os.environ.get("VF_MAX_SUCCESS"):
         tcfg["max_success"] = int(os.environ["VF_MAX_SUCCESS"])
+    if os.environ.get("VF_BUDGET_S"):
+        tcfg["budget_s"] = int(os.environ["VF_BUDGET_S"])
     if os.environ.get("VF_WORKERS"):
         tcfg["workers"] = int(os.environ["VF_WORKERS"])
     bins = build_targets([cfg["target"]])
@@ -268,6 +270,8 @@ def run_rc_program(pid, tier, cfg):
             ms, ls = also[tier + "_max_success"], also.get("len_scale", ls)
         env["RC_PARAMS"] = "seed=%d max_success=%d max_size=%d" % (seed_for(base_seed(), pid, i), ms, tcfg["max_size"])
         env["VF_LEN_SCALE"] = str(ls)
+        if tcfg.get("budget_s"):
+            env["VF_TIME_BUDGET"] = str(tcfg["budget_s"])
         for k, v in tcfg.get("env", {}).items():
             env[k] = str(v)
         lf = open(os.path.join(d, "log.txt"), "w")
